@@ -13,7 +13,7 @@ from av.props import simprop
 MANIFEST_ENTRY = {
     "category": "exploration",
     "technique": "paired-call monitor on the real PlotData / cascade functions over one Result (permutations, subsets and supersets of the requested outputs and populations; explicit and default aggregation), additivity / betweenness oracles, cascade monotonicity and data-sum oracles, and a bit-exact digest of the Result around every plotting / export call with an audit hook on file writes",
-    "text": "For each simulated Result a pool of outputs (compartments, characteristics, parameters of every unit, flow selectors, named aggregations of numbers and of rates, formulas) and population selections (single, lists, named aggregates, 'total') is drawn; the value reported for a fixed (population, output) must be bit-identical across permutations, subsets and supersets of the request, with default and with explicit aggregation methods. Sum aggregates must equal the sum of their parts, averages and weighted averages must lie between the smallest and largest part, the total of a number quantity must equal the sum over populations, and these statements must survive interpolate() and time_aggregate() onto random bins. Cascade stage values from get_cascade_vals must be non-increasing along every valid cascade (framework-defined and ad hoc) at every time, get_cascade_data must equal the sum of the databook entries of each stage's constituents, and the Result's arrays must be unchanged after PlotData, plot_series, plot_bars, plot_cascade, export_results, export_raw and Result.plot, with files written only at the requested export path. The request-independence comparison also runs with time aggregation (bins in the constructor or time_aggregate() afterwards, default and explicit method) and with interpolate() afterwards; the output pool contains all-outflow / all-inflow selectors that resolve to several links. Cascade data are requested for ascending, descending, shuffled and single-year lists and compared point by point. 40% of the request-independence comparisons put a second result with other population sizes into the same call. Weighted averages are also taken over transition parameters (weights = sizes of the compartments they act on): between the parts, or undefined where all weights are zero. Numerically identical bin edges typed as floats, Python ints and numpy integers must give identical values. Half of the results are also run with a generated program set: coverage reports, PlotData.programs and exports leave that result unchanged and repeat identically.",
+    "text": "For each simulated Result a pool of outputs (compartments, characteristics, parameters of every unit, flow selectors, named aggregations of numbers and of rates, formulas) and population selections (single, lists, named aggregates, 'total') is drawn; the value reported for a fixed (population, output) must be bit-identical across permutations, subsets and supersets of the request, with default and with explicit aggregation methods. Sum aggregates must equal the sum of their parts, averages and weighted averages must lie between the smallest and largest part, the total of a number quantity must equal the sum over populations, and these statements must survive interpolate() and time_aggregate() onto random bins. Cascade stage values from get_cascade_vals must be non-increasing along every valid cascade (framework-defined and ad hoc) at every time, get_cascade_data must equal the sum of the databook entries of each stage's constituents, and the Result's arrays must be unchanged after PlotData, plot_series, plot_bars, plot_cascade, export_results, export_raw and Result.plot, with files written only at the requested export path. The request-independence comparison also runs with time aggregation (bins in the constructor or time_aggregate() afterwards, default and explicit method) and with interpolate() afterwards; the output pool contains all-outflow / all-inflow selectors that resolve to several links. Cascade data are requested for ascending, descending, shuffled and single-year lists and compared point by point. 40% of the request-independence comparisons put a second result with other population sizes into the same call. Weighted averages are also taken over transition parameters (weights = sizes of the compartments they act on): between the parts, or undefined where all weights are zero. Numerically identical bin edges typed as floats, Python ints and numpy integers must give identical values. Half of the results are also run with a generated program set: coverage reports, PlotData.programs and exports leave that result unchanged and repeat identically. The total of a formula of number quantities over populations equals the sum of its per-population values (default method).",
     "note": "'Valid cascade' is restricted to duplicate-free constituent lists. Matplotlib runs with the Agg backend.",
 }
 
